@@ -299,6 +299,11 @@ func (b *Builder) IfFeature(o interface{}, expression string) *IfFeature {
 	i := IfFeature{
 		expr: expression,
 	}
+	// syntax is checked here, a node that is dropped because a feature of an
+	// ancestor is off would otherwise never have its expression looked at
+	if _, err := i.Evaluate(nil); err != nil {
+		b.setErr(err)
+	}
 	h, valid := o.(HasIfFeatures)
 	if !valid {
 		b.setErr(fmt.Errorf("%T does not support if-feature", o))
